@@ -25,10 +25,20 @@ use std::net::{IpAddr, SocketAddr};
 use std::sync::Arc;
 use std::sync::atomic::{AtomicU32, AtomicU64, Ordering};
 
+#[cfg(not(rustrtc_verif))]
 use std::time::{Duration, Instant};
+#[cfg(rustrtc_verif)]
+use std::time::Duration;
+#[cfg(rustrtc_verif)]
+use crate::verif_hooks::Instant;
 
 use anyhow::{Context, Result, anyhow, bail};
+#[cfg(not(rustrtc_verif))]
 use tokio::net::{TcpListener, TcpStream, UdpSocket, lookup_host};
+#[cfg(rustrtc_verif)]
+use tokio::net::{TcpListener, TcpStream, lookup_host};
+#[cfg(rustrtc_verif)]
+use crate::verif_hooks::UdpSocket;
 use tokio::sync::{Mutex, broadcast, mpsc, oneshot, watch};
 use tokio::time::timeout;
 use tracing::{debug, instrument, trace, warn};
